@@ -25,10 +25,35 @@ RULE = ("random acyclic component graphs (2-12 nodes, all component types, requi
         "following the documented pruning of dr.run under a SerializedArchiveContext, plus: every value "
         "that was in the broker before the evaluation started (caller's or loaded from the archive) is "
         "still there unchanged and its component's body never ran. Non-trivial there: the caller and the "
-        "archive supply a value for the same component and at least one body ran.")
+        "archive supply a value for the same component and at least one body ran. "
+        "Failing bodies (history, pooled): in three quarters of the cases the nodes that fail raise an instance "
+        "of a class drawn by family from a catalogue of every builtin Exception class of the interpreter, the "
+        "classes of insights.core.exceptions, json/subprocess/futures classes and plugin-author subclasses of "
+        "them (ValueError, UnicodeDecodeError, JSONDecodeError, OSError, KeyError, SkipComponent subclasses, "
+        "...); optionally the caller has put a HostContext / HostArchiveContext into the broker. Sub-check "
+        "pooled: graphs of 2-4 parts evaluated through the pooled front ends - dr.run_all(graph, broker, pool) "
+        "with a thread pool of 1-3 workers or an executor that runs jobs inside submit(), "
+        "SingleEvaluator/InsightsEvaluator(broker, incremental=).process(graph, parallel=), insights._run("
+        "root=None, parallel=) and insights.process_dir(parallel=) (their pool comes from insights.get_pool) - "
+        "with, in three quarters of the cases, a fault plan for the pool: the k-th submit() of the evaluation "
+        "(k = 1..5; once or from then on) raises RuntimeError(\"can't start new thread\") [the job already "
+        "queued or not], RuntimeError(\"cannot schedule new futures after shutdown\") or BrokenThreadPool. "
+        "Oracle there: the same history invariant; when the fault fired, 'attempted exactly once' is relaxed to "
+        "'at most once' and nothing is asserted about whether the call raises. Non-trivial there: the fault "
+        "fired after at least one sub-graph had been dispatched and something was attempted.")
 ASSUMPTIONS = ["graphs are acyclic; component bodies do not touch the broker themselves",
                "archive sub-check: a (de)serializer pair for tuple is registered through the public serde "
-               "decorators for the duration of a case (the generated bodies return tuples)"]
+               "decorators for the duration of a case (the generated bodies return tuples)",
+               "pooled sub-check: concurrent.futures.ThreadPoolExecutor (the name insights.get_pool imports "
+               "when it is called) is replaced by a subclass following the case's fault plan for the duration "
+               "of the engine call and restored afterwards; max_workers=None is resolved to the case's pool "
+               "size; SIGALRM handler and timer are restored after every case",
+               "bodies raise Exception subclasses only (what an evaluation does about KeyboardInterrupt, "
+               "SystemExit or GeneratorExit is not stated)"]
+EXCLUDED = ["pooled sub-check, insights._run(root=None, parallel=True): on the pinned tree the call falls through "
+            "to os.path.isdir(None) after its pooled evaluation and ends in TypeError; that escape is not "
+            "reported (the statement is silent about what a front end returns or raises after the "
+            "evaluation), the history of the evaluation is checked in full"]
 
 KINDS = dyn.DRIVERS + ["run_incremental", "run_all", "run_all_pool"]
 
@@ -67,11 +92,231 @@ def prio_labels(b, case):
     return labels
 
 
+# ---- the class of the exception a failing body raises ----------------------------------------------------
+#
+# dyn.graphs gives a failing node one of seven fixed exceptions.  The engine's fault handling is written in
+# terms of exception *classes* (except ContentException / CalledProcessError / TimeoutException /
+# SkipComponent / BlacklistedSpec / MissingRequirements / Exception in dr.run_components and in the invoke()
+# of every plugin type), so the class is an input dimension of "attempted at most once": every concrete
+# class a body can raise - all builtin Exception classes of the running interpreter, what
+# insights.core.exceptions exports, the stdlib classes spec code meets most (json, subprocess, futures) and
+# classes a plugin author derives from them.  (BaseException-only classes - KeyboardInterrupt, SystemExit,
+# GeneratorExit - are left out: what an evaluation does about them is not stated.)  Sampling is by family
+# (the ancestor that derives directly from Exception) first and member second, so that a family with many
+# leaves (OSError) does not crowd out one with few (ValueError).
+
+_EXC = {}
+
+
+def exc_catalogue():
+    """name -> class (deterministic for one interpreter + tree)."""
+    if _EXC:
+        return _EXC
+    import builtins
+    import concurrent.futures
+    import json
+    import subprocess
+    from insights.core import exceptions as ie
+    cat = {}
+    for name, v in sorted(vars(builtins).items()):
+        if isinstance(v, type) and issubclass(v, Exception) and v.__name__ == name and not name.startswith("_"):
+            cat[name] = v
+    for name, v in sorted(vars(ie).items()):
+        if isinstance(v, type) and issubclass(v, Exception) and v.__module__ == ie.__name__:
+            cat["insights." + name] = v
+    cat["json.JSONDecodeError"] = json.JSONDecodeError
+    cat["subprocess.SubprocessError"] = subprocess.SubprocessError
+    cat["subprocess.CalledProcessError"] = subprocess.CalledProcessError
+    cat["subprocess.TimeoutExpired"] = subprocess.TimeoutExpired
+    cat["futures.CancelledError"] = concurrent.futures.CancelledError
+    cat["futures.BrokenExecutor"] = concurrent.futures.BrokenExecutor
+    # what a plugin author writes: own classes derived from the usual bases
+    for base in ("Exception", "ValueError", "KeyError", "OSError", "RuntimeError", "TypeError",
+                 "insights.SkipComponent", "insights.ContentException", "insights.ParseException",
+                 "insights.CalledProcessError", "insights.TimeoutException"):
+        cls = cat[base]
+        cat["user(%s)" % base] = type("User" + cls.__name__, (cls,), {"__module__": __name__})
+    _EXC.update(cat)
+    return _EXC
+
+
+def exc_family(cls):
+    for k in cls.__mro__:
+        if Exception in k.__bases__:
+            return k.__module__ + "." + k.__name__
+    return "Exception"
+
+
+_FAMS = {}
+
+
+def exc_families():
+    if not _FAMS:
+        for name, cls in sorted(exc_catalogue().items()):
+            _FAMS.setdefault(exc_family(cls), []).append(name)
+    return _FAMS
+
+
+def make_exc(name, tag):
+    cls = exc_catalogue()[name]
+    msg = "x %s %r" % (name, tag)
+    base = name[5:-1] if name.startswith("user(") else name
+    if base == "UnicodeDecodeError":
+        return cls("utf-8", b"\xff", 0, 1, msg)
+    if base == "UnicodeEncodeError":
+        return cls("ascii", u"\xe9", 0, 1, msg)
+    if base == "UnicodeTranslateError":
+        return cls(u"\xe9", 0, 1, msg)
+    if base == "json.JSONDecodeError":
+        return cls(msg, "{", 0)
+    if base == "ExceptionGroup":
+        return cls(msg, [ValueError(msg)])
+    if base == "insights.CalledProcessError":
+        return cls(1, "cmd", msg)
+    if base == "subprocess.CalledProcessError":
+        return cls(1, "cmd")
+    if base == "subprocess.TimeoutExpired":
+        return cls("cmd", 1)
+    if base == "insights.MissingRequirements":
+        return cls(([], []))
+    return cls(msg)
+
+
+# the families plugin code fails with most (conversions, look-ups, I/O, attribute/type slips, the engine's own
+# classes): half of the draws; the other half is uniform over all families
+COMMON_FAMILIES = ["builtins.ValueError", "builtins.LookupError", "builtins.OSError", "builtins.TypeError",
+                   "builtins.AttributeError", "builtins.RuntimeError", "insights.core.exceptions.SkipComponent",
+                   "insights.core.exceptions.ParseException", "insights.core.exceptions.CalledProcessError",
+                   "insights.core.exceptions.TimeoutException"]
+
+
+def exc_names():
+    fams = exc_families()
+    return st.one_of(st.sampled_from(COMMON_FAMILIES), st.sampled_from(sorted(fams))).flatmap(
+        lambda f: st.sampled_from(fams[f]))
+
+
+def draw_xfaults(draw, case):
+    """Optional node key "xfault" = {"exc": catalogue name, "elems": [k..]}: the body raises an instance of
+    that class instead of dyn's own fault (for the per-element invocations of a parser: at the element
+    indices k mod 4).  Three quarters of the cases; there most of the nodes dyn made fail and a few of the
+    others."""
+    mode = draw(st.sampled_from(["off", "some", "some", "all"]))
+    if mode == "off":
+        return
+    for nd in case["nodes"]:
+        if nd["t"] == "regpoint":
+            continue
+        failing = nd["fault"] != "ok" or (nd["t"] == "parser" and any(f != "ok" for f in nd["efaults"]))
+        if failing:
+            take = mode == "all" or draw(st.booleans())
+        else:
+            take = draw(st.integers(0, 7)) == 0
+        if take:
+            nd["xfault"] = {"exc": draw(exc_names()),
+                            "elems": sorted(draw(st.sets(st.integers(0, 3), min_size=1, max_size=4)))}
+
+
+def draw_focus(draw, case):
+    """A failing body only shows how the engine treats its failure when it is reached, i.e. when everything
+    it depends on succeeded; with a fault on almost every second node that is rare for nodes deep in the graph
+    (per-element parser runs on a multi-output datasource most of all).  In half of the cases one node - one
+    with a generated exception class if there is any - is picked and everything in its dependency closure is
+    made to succeed (faults removed, not disabled)."""
+    if not draw(st.booleans()):
+        return
+    nodes = case["nodes"]
+    cands = [i for i, nd in enumerate(nodes) if nd.get("xfault")] or list(range(len(nodes)))
+    # (parsers count three times: their per-element runs are the path that is reached least)
+    cands = cands + [i for i in cands if nodes[i]["t"] == "parser"] * 2
+    f = draw(st.sampled_from(cands))
+    below = dyn.closure(case, [f]) - set([f])
+    for j in below:
+        nodes[j]["fault"] = "ok"
+        nodes[j]["efaults"] = ["ok"]
+        nodes[j].pop("xfault", None)
+    case["disabled"] = [i for i in case["disabled"] if i not in below and i != f]
+    case["focus"] = f
+    if nodes[f]["t"] == "parser":
+        # a parser is run once per element when the datasource it parses (directly or through the registry
+        # point it implements) produces a list
+        src = nodes[f]["decl"][0][1]
+        if nodes[src]["t"] == "regpoint":
+            src = nodes[src]["decl"][0][1][0]
+        if nodes[src]["t"] == "datasource" and not nodes[src]["multi"] and src not in case["seeded"]:
+            nodes[src]["multi"] = draw(st.sampled_from([1, 2, 3, 4]))
+
+
+def install_xfaults(b, case):
+    nodes = case["nodes"]
+    if not any(nd.get("xfault") for nd in nodes):
+        return
+
+    def hook(i, t, elem):
+        x = nodes[i].get("xfault")
+        if not x or (elem is not None and elem % 4 not in x["elems"]):
+            return
+        exc = make_exc(x["exc"], (i, elem))
+        b.raised[(i, elem)] = exc
+        raise exc
+    b.hook = hook
+
+
+def xfault_labels(case, ran):
+    """coverage only: families of the exception classes that were really raised."""
+    out = set()
+    for i in sorted(ran):
+        x = case["nodes"][i].get("xfault")
+        if x:
+            out.add("raised=" + exc_family(exc_catalogue()[x["exc"]]).replace("builtins.", "").replace(
+                "insights.core.exceptions.", "insights."))
+    if out:
+        out.add("xfault-raised")
+    return sorted(out)
+
+
+# ---- the execution context the caller puts into the broker ------------------------------------------------
+#
+# A collection on the host puts a HostContext into the broker (the engine then arms a SIGALRM time limit
+# around every datasource, which only works in the main thread), the analysis of an unpacked archive a
+# HostArchiveContext.  Both are values "supplied before the evaluation starts".
+
+CTXS = ["none", "none", "none", "host", "archive"]
+
+
+def make_ctx(kind):
+    from insights.core import context
+    cls = {"host": context.HostContext, "archive": context.HostArchiveContext}[kind]
+    return cls, cls()
+
+
+class alarm_guard(object):
+    """Whatever the engine does with SIGALRM during a case (datasource time limits under HostContext) is
+    undone when the case is over."""
+
+    def __enter__(self):
+        import signal
+        import threading
+        self.main = threading.current_thread() is threading.main_thread()
+        self.old = signal.getsignal(signal.SIGALRM) if self.main else None
+        return self
+
+    def __exit__(self, *exc):
+        import signal
+        signal.setitimer(signal.ITIMER_REAL, 0)
+        if self.main:
+            signal.signal(signal.SIGALRM, self.old if self.old is not None else signal.SIG_DFL)
+        return False
+
+
 @st.composite
 def cases(draw, tier="quick"):
     case = draw(dyn.graphs(max_nodes=12 if tier == "quick" else 16, parts=draw(st.sampled_from([1, 1, 2, 3])),
                             none_seeds=True))
     draw_prios(draw, case)
+    draw_xfaults(draw, case)
+    draw_focus(draw, case)
+    case["ctx"] = draw(st.sampled_from(CTXS))
     case["driver"] = draw(dyn.driver(len(case["nodes"]), kinds=KINDS))
     # the same graph object evaluated again with a fresh broker (dr.run() on a group, cluster processing,
     # an evaluator called repeatedly): every evaluation has to satisfy the property on its own
@@ -79,7 +324,8 @@ def cases(draw, tier="quick"):
     return case
 
 
-def check_history(case, b, broker, graph_nodes, part, seeded, preloaded=(), seed_objs=None, outside_once=True):
+def check_history(case, b, broker, graph_nodes, part, seeded, preloaded=(), seed_objs=None, outside_once=True,
+                  exactly_once=True):
     """The invariant over one evaluation's history (b.log: body calls and observer events, in order).
 
     graph_nodes: nodes of the graph that was handed to the engine; part: those of them that take part
@@ -87,7 +333,9 @@ def check_history(case, b, broker, graph_nodes, part, seeded, preloaded=(), seed
     preloaded: nodes that had a value in the broker before the evaluation started for another reason
     (loaded from an archive); outside_once: also components that do not take part (mentioned only as
     somebody's dependency) are notified to observers at most once - true for one dr.run over one graph, not
-    demanded when a graph that is not closed under dependencies is split into sub-graphs."""
+    demanded when a graph that is not closed under dependencies is split into sub-graphs; exactly_once:
+    every participating node was attempted (False when the harness made the scheduler's resources fail in
+    the middle of the evaluation: then only "at most once" is stated)."""
     nodes = case["nodes"]
     comps = b.comps
     n = len(nodes)
@@ -95,6 +343,7 @@ def check_history(case, b, broker, graph_nodes, part, seeded, preloaded=(), seed
     obs_pos = {}
     whole_calls = {}
     elem_calls = {}
+    elem_args = {}
     obs_count = {}
     for k, ev in enumerate(list(b.log)):
         i = ev[1]
@@ -107,6 +356,7 @@ def check_history(case, b, broker, graph_nodes, part, seeded, preloaded=(), seed
                 whole_calls[i] = whole_calls.get(i, 0) + 1
             else:
                 elem_calls.setdefault(i, []).append(ev[3])
+                elem_args.setdefault(i, []).append(repr(ev[2]))
     for i in range(n):
         if whole_calls.get(i, 0) > 1:
             raise Violation("node %d ran %d times" % (i, whole_calls[i]), node=i)
@@ -114,6 +364,9 @@ def check_history(case, b, broker, graph_nodes, part, seeded, preloaded=(), seed
             raise Violation("node %d ran both as a whole and per element" % i, node=i)
         if i in elem_calls and elem_calls[i] != list(range(len(elem_calls[i]))):
             raise Violation("multi-output node %d processed its elements as %r" % (i, elem_calls[i]), node=i)
+        if i in elem_args and len(set(elem_args[i])) != len(elem_args[i]):
+            # (the elements of every list a generated component produces are pairwise different)
+            raise Violation("multi-output node %d processed the same element more than once" % i, node=i)
         ran = i in whole_calls or i in elem_calls
         if ran and i in seeded:
             raise Violation("seeded node %d was recomputed" % i, node=i)
@@ -122,9 +375,9 @@ def check_history(case, b, broker, graph_nodes, part, seeded, preloaded=(), seed
                             "recomputed" % i, node=i)
         if ran and i not in graph_nodes:
             raise Violation("node %d ran although it is not part of the evaluated graph" % i, node=i)
-        if i in part and obs_count.get(i, 0) != 1:
-            raise Violation("observer fired %d times for participating node %d (expected once)" % (
-                obs_count.get(i, 0), i), node=i)
+        if i in part and (obs_count.get(i, 0) != 1 if exactly_once else obs_count.get(i, 0) > 1):
+            raise Violation("observer fired %d times for participating node %d (expected %s)" % (
+                obs_count.get(i, 0), i, "once" if exactly_once else "at most once"), node=i)
         if obs_count.get(i, 0) > 1 and outside_once:
             raise Violation("observer fired %d times for node %d" % (obs_count[i], i), node=i)
         if ran and i in obs_pos and obs_pos[i] < first_event[i]:
@@ -146,7 +399,15 @@ def check_history(case, b, broker, graph_nodes, part, seeded, preloaded=(), seed
 def check(case):
     from insights.core import dr
     b = dyn.build(case)
+    guard = alarm_guard().__enter__()
     try:
+        install_xfaults(b, case)
+        ctx_cls, ctx_obj = make_ctx(case["ctx"]) if case.get("ctx", "none") != "none" else (None, None)
+
+        def prepare(broker):
+            if ctx_cls is not None:
+                broker[ctx_cls] = ctx_obj
+        ran_any = set()
         nodes = case["nodes"]
         comps = b.comps
         n = len(nodes)
@@ -179,10 +440,14 @@ def check(case):
         for rep in range(int(case.get("repeat", 1))):
             b.log[:] = []
             b.raised.clear()
-            broker, escaped = dyn.execute(case, b, drv, graphs=graphs)
+            broker, escaped = dyn.execute(case, b, drv, graphs=graphs, prepare=prepare)
             if escaped is not None:
                 raise Violation("evaluation raised %s: %s" % (type(escaped).__name__, escaped))
             check_history(case, b, broker, graph_nodes=active, part=active, seeded=set(case["seeded"]))
+            if ctx_cls is not None and broker.get(ctx_cls) is not ctx_obj:
+                raise Violation("the execution context the caller had put into the broker was replaced by %r" % (
+                    broker.get(ctx_cls),))
+            ran_any |= set(ev[1] for ev in b.log if ev[0] == "call")
             # a stored value can never be overwritten
             for c in list(broker.instances)[:3]:
                 before = broker[c]
@@ -209,7 +474,9 @@ def check(case):
                     if x < y and dyn.closure(case, [x]) & dyn.closure(case, [y]):
                         diamond = True
         nontrivial = multi_dep and (seeded_with_dependents or diamond)
-        labels = ["driver=" + drv["kind"]] + prio_labels(b, case)
+        labels = ["driver=" + drv["kind"]] + prio_labels(b, case) + xfault_labels(case, ran_any)
+        if case.get("ctx", "none") != "none":
+            labels.append("ctx=" + case["ctx"])
         if diamond:
             labels.append("diamond")
         if seeded_with_dependents:
@@ -218,6 +485,7 @@ def check(case):
             labels.append("nontrivial")
         return {"nontrivial": nontrivial, "labels": labels}
     finally:
+        guard.__exit__(None, None, None)
         dyn.cleanup(b)
 
 
@@ -293,6 +561,38 @@ def _sweep_stale_tmp():
 
 def selftest():
     _sweep_stale_tmp()
+    # the exception catalogue: every entry can be built and is an instance of the class it names
+    for name, cls in sorted(exc_catalogue().items()):
+        e = make_exc(name, (0, None))
+        if type(e) is not cls or not isinstance(e, Exception):
+            raise AssertionError("harness: catalogue entry %s builds %r" % (name, e))
+    if [f for f in COMMON_FAMILIES if f not in exc_families()]:
+        raise AssertionError("harness: unknown exception family in COMMON_FAMILIES")
+    if "builtins.ValueError" not in exc_families() or "json.JSONDecodeError" not in exc_families()["builtins.ValueError"]:
+        raise AssertionError("harness: exception families are not what the generator assumes")
+    # the failing pool: the k-th submit of the case raises, the others are carried out
+    import concurrent.futures as cf
+    for kind in ("thread", "inline"):
+        for mode in ("reject", "queued"):
+            state = {"real": cf.ThreadPoolExecutor, "submits": 0, "fired": 0, "fired_after_dispatch": 0}
+            Pool, Inline = _pool_classes({"workers": 1, "fault": {"at": 2, "mode": mode, "persist": False,
+                                                                  "exc": "thread"}}, state)
+            done = []
+            pool = Pool(1) if kind == "thread" else Inline()
+            try:
+                pool.submit(done.append, 1).result()
+                try:
+                    pool.submit(done.append, 2)
+                    raise AssertionError("harness: the failing pool accepted the job it was to refuse")
+                except RuntimeError:
+                    pass
+                pool.submit(done.append, 3).result()
+            finally:
+                if kind == "thread":
+                    pool.shutdown(wait=True)
+            want = [1, 2, 3] if (kind, mode) == ("thread", "queued") else [1, 3]
+            if done != want or state["fired"] != 1 or state["fired_after_dispatch"] != 1:
+                raise AssertionError("harness: failing pool %s/%s carried out %r (%r)" % (kind, mode, done, state))
 
 
 def _tuple_serde(register):
@@ -494,6 +794,233 @@ def check_archive(case):
         shutil.rmtree(tmp, ignore_errors=True)
 
 
+# ---- pooled evaluation with a pool that fails in the middle of the dispatch --------------------------------
+#
+# Every pooled front end of the engine (dr.run_all(graph, broker, pool); Evaluator.process(graph,
+# parallel=True) of the incremental evaluators, insights._run(..., parallel=True) and
+# insights.process_dir(..., parallel=True), which obtain a ThreadPoolExecutor from insights.get_pool) cuts the
+# graph into its disjoint sub-graphs and submits one job per sub-graph.  The pool is a resource that can
+# fail: Executor.submit() raises RuntimeError when the OS refuses another thread ("can't start new thread" -
+# the work item is already queued then and an existing worker still executes it), when the pool has been
+# shut down, or when it is broken (BrokenThreadPool).  The harness makes the k-th submit() of the case fail
+# that way (once, or from then on).  What the engine does about the fault - give up or carry on - is not
+# stated; that no component is attempted twice within the one evaluation is.
+
+# (Hypothesis favours the head of a sampled_from list: the front ends that wrap dr.run_all come first, dr.run_all
+# with a healthy pool is also a driver of the history sub-check)
+FRONTS = ["single_evaluator", "run_all", "insights_evaluator", "process_dir", "_run_host", "run_all",
+          "single_evaluator"]
+POOL_FAULTS = ["thread", "thread", "shutdown", "broken"]
+
+
+def pool_exc(kind):
+    if kind == "thread":
+        return RuntimeError("can't start new thread")
+    if kind == "shutdown":
+        return RuntimeError("cannot schedule new futures after shutdown")
+    if kind == "broken":
+        from concurrent.futures.thread import BrokenThreadPool
+        return BrokenThreadPool("A thread initializer failed, the thread pool is not usable anymore")
+    raise AssertionError(kind)
+
+
+@st.composite
+def pooled_cases(draw, tier="quick"):
+    case = draw(dyn.graphs(min_nodes=3, max_nodes=10 if tier == "quick" else 14,
+                            parts=draw(st.sampled_from([2, 3, 3, 4])), none_seeds=True))
+    draw_xfaults(draw, case)
+    draw_focus(draw, case)
+    n = len(case["nodes"])
+    front = case["front"] = draw(st.sampled_from(FRONTS))
+    # graphs closed under dependencies: the whole graph or the closure of some targets
+    case["driver"] = draw(dyn.driver(n, kinds=["run_full", "run_full", "run_full", "run_targets"]))
+    case["parallel"] = draw(st.sampled_from([True, True, True, False]))
+    if front.endswith("_evaluator"):
+        case["incremental"] = draw(st.sampled_from([True, True, True, False]))
+    # _run(root=None) and process_dir put the execution context into the broker themselves
+    case["ctx"] = draw(st.sampled_from(CTXS)) if front in ("run_all", "single_evaluator", "insights_evaluator") \
+        else "none"
+    pool = case["pool"] = {"workers": draw(st.sampled_from([1, 2, 3])),
+                           # a duck-typed executor that runs the job inside submit(): only where the caller
+                           # hands the pool over
+                           "kind": draw(st.sampled_from(["thread", "thread", "inline"])) if front == "run_all"
+                           else "thread"}
+    if draw(st.sampled_from([True, True, True, False])):
+        pool["fault"] = {"at": draw(st.sampled_from([1, 2, 2, 3, 3, 4, 5])),
+                         "mode": draw(st.sampled_from(["reject", "queued"])),
+                         "persist": draw(st.booleans()),
+                         "exc": draw(st.sampled_from(POOL_FAULTS))}
+    return case
+
+
+def _pool_classes(plan, state):
+    """The executor classes of one case: a ThreadPoolExecutor whose submit() follows the fault plan, and an
+    executor that runs each job inside submit().  state counts submits over all pools of the case."""
+    from concurrent.futures import Future
+
+    def faulty(pool):
+        state["submits"] += 1
+        f = plan.get("fault")
+        if f and (state["submits"] == f["at"] or (f["persist"] and state["submits"] > f["at"])):
+            state["fired"] += 1
+            if state["submits"] > 1:
+                state["fired_after_dispatch"] += 1
+            return f
+        return None
+
+    class Pool(state["real"]):
+        def __init__(self, max_workers=None, *a, **kw):
+            # max_workers=None leaves the size to the implementation (cpu count + 4): a small machine
+            super(Pool, self).__init__(plan["workers"] if max_workers is None else max_workers, *a, **kw)
+
+        def submit(self, fn, *a, **kw):
+            f = faulty(self)
+            if f:
+                if f["mode"] == "queued" and getattr(self, "_threads", None):
+                    # the work item was queued before the thread could not be started: a worker that
+                    # exists executes it
+                    super(Pool, self).submit(fn, *a, **kw)
+                raise pool_exc(f["exc"])
+            return super(Pool, self).submit(fn, *a, **kw)
+
+    class Inline(object):
+        def submit(self, fn, *a, **kw):
+            f = faulty(self)
+            if f:
+                raise pool_exc(f["exc"])
+            fut = Future()
+            try:
+                fut.set_result(fn(*a, **kw))
+            except Exception as e:  # noqa
+                fut.set_exception(e)
+            return fut
+    return Pool, Inline
+
+
+def check_pooled(case):
+    import concurrent.futures as cf
+    import io
+    import logging
+    import os
+    import shutil
+    import tempfile
+    import insights
+    from insights.core import dr
+
+    nodes = case["nodes"]
+    drv = case["driver"]
+    front = case["front"]
+    plan = case["pool"]
+    parallel = bool(case.get("parallel"))
+    prev_disable = logging.root.manager.disable
+    logging.disable(logging.CRITICAL)
+    real = cf.ThreadPoolExecutor
+    state = {"real": real, "submits": 0, "fired": 0, "fired_after_dispatch": 0}
+    Pool, Inline = _pool_classes(plan, state)
+    tmp = None
+    b = dyn.build(case)
+    guard = alarm_guard().__enter__()
+    try:
+        install_xfaults(b, case)
+        comps = b.comps
+        active = dyn.active_set(case, drv)
+        graph = dict((comps[i], set(comps[j] for j in dyn.dep_set(nodes[i]))) for i in sorted(active))
+        seeded = set(case["seeded"])
+        seed_objs = dict((i, dyn.seed_value(case, i)) for i in sorted(seeded))
+        broker = dr.Broker()
+        broker.store_skips = case["store_skips"]
+        for i in sorted(seeded):
+            broker[comps[i]] = seed_objs[i]
+        for i in case["disabled"]:
+            dr.set_enabled(comps[i], False)
+        ctx_cls, ctx_obj = make_ctx(case["ctx"]) if case.get("ctx", "none") != "none" else (None, None)
+        if ctx_cls is not None:
+            broker[ctx_cls] = ctx_obj
+
+        def recorder(c, brk):
+            b.log.append(("obs", b.index.get(c, -1)))
+        broker.add_observer(recorder)
+        if front == "process_dir":
+            tmp = tempfile.mkdtemp(prefix="%s%d-" % (TMP_PREFIX, os.getpid()))
+            os.makedirs(os.path.join(tmp, "root", "etc"))
+            with open(os.path.join(tmp, "root", "etc", "hostname"), "w") as f:
+                f.write("vp.example.com\n")
+        escaped = None
+        cf.ThreadPoolExecutor = Pool          # what insights.get_pool() imports when it is asked for a pool
+        try:
+            if front == "run_all":
+                if not parallel:
+                    dr.run_all(graph, broker)
+                elif plan["kind"] == "inline":
+                    dr.run_all(graph, broker, Inline())
+                else:
+                    with Pool(plan["workers"]) as pool:
+                        dr.run_all(graph, broker, pool)
+            elif front in ("single_evaluator", "insights_evaluator"):
+                from insights.core import evaluators
+                cls = evaluators.SingleEvaluator if front == "single_evaluator" else evaluators.InsightsEvaluator
+                cls(broker, stream=io.StringIO(), incremental=bool(case.get("incremental"))).process(
+                    graph, parallel=parallel)
+            elif front == "_run_host":
+                insights._run(broker, graph, root=None, parallel=parallel)
+            elif front == "process_dir":
+                insights.process_dir(broker, os.path.join(tmp, "root"), graph, None, parallel=parallel)
+            else:
+                raise AssertionError(front)
+        except AssertionError:
+            raise
+        except Exception as e:  # noqa
+            escaped = e
+        finally:
+            cf.ThreadPoolExecutor = real
+        fired = state["fired"] > 0
+        # insights._run(root=None, parallel=True) does not return after its pooled evaluation: it falls through
+        # to os.path.isdir(None) and ends in a TypeError (pinned tree; a defect, but none of this property -
+        # the statement is silent about what a front end returns or raises once the evaluation is over).  The
+        # history below is checked in full for it (every participating node attempted exactly once).
+        falls_through = front == "_run_host" and parallel
+        if escaped is not None and not fired and not falls_through:
+            raise Violation("evaluation through %s raised %s: %s" % (front, type(escaped).__name__, escaped))
+        # -- oracle: the history invariant; when the pool failed, "exactly once" is only "at most once" ----------
+        check_history(case, b, broker, graph_nodes=active, part=active, seeded=seeded, seed_objs=seed_objs,
+                      exactly_once=not fired)
+        if ctx_cls is not None and broker.get(ctx_cls) is not ctx_obj:
+            raise Violation("the execution context the caller had put into the broker was replaced by %r" % (
+                broker.get(ctx_cls),))
+        ran = set(ev[1] for ev in b.log if ev[0] == "call")
+        attempted = set(ev[1] for ev in b.log if ev[0] == "obs")
+        labels = ["front=" + front, "graph=" + drv["kind"]] + xfault_labels(case, ran)
+        if case.get("ctx", "none") != "none":
+            labels.append("ctx=" + case["ctx"])
+        if state["submits"]:
+            labels.append("pooled")
+            labels.append("pool=" + plan["kind"])
+            labels.append("jobs=%s" % (state["submits"] if state["submits"] < 4 else "4+"))
+        if fired:
+            labels.append("pool-fault-fired")
+            labels.append("pool-fault=%s/%s%s" % (plan["fault"]["exc"], plan["fault"]["mode"],
+                                                  "/persist" if plan["fault"]["persist"] else ""))
+            labels.append("engine-raised" if escaped is not None else "engine-carried-on")
+        # a fault that hits after part of the sub-graphs was dispatched, with something attempted
+        nontrivial = state["fired_after_dispatch"] > 0 and bool(attempted & active)
+        if nontrivial:
+            labels.append("nontrivial")
+            if ran:
+                labels.append("fault-after-bodies-ran")
+        return {"nontrivial": nontrivial, "labels": labels}
+    finally:
+        cf.ThreadPoolExecutor = real
+        guard.__exit__(None, None, None)
+        logging.disable(prev_disable)
+        dyn.cleanup(b)
+        if tmp is not None:
+            shutil.rmtree(tmp, ignore_errors=True)
+
+
+def strat_pooled(tier):
+    return pooled_cases(tier)
+
+
 def strat_archive(tier):
     return archive_cases(tier)
 
@@ -502,8 +1029,9 @@ def strat(tier):
     return cases(tier)
 
 
-SUBS = [Sub("history", check, strategy=strat, quick=2200, thorough=20000, workers_quick=4),
-        Sub("archive", check_archive, strategy=strat_archive, quick=350, thorough=6000, workers_quick=4)]
+SUBS = [Sub("history", check, strategy=strat, quick=2000, thorough=18000, workers_quick=4),
+        Sub("archive", check_archive, strategy=strat_archive, quick=350, thorough=6000, workers_quick=4),
+        Sub("pooled", check_pooled, strategy=strat_pooled, quick=400, thorough=8000, workers_quick=4)]
 
 _N = {"multi": 0, "efaults": ["ok"], "coe": True, "decl": [], "fault": "ok"}
 REGRESSIONS = [
